@@ -37,12 +37,7 @@ var int64Alphabet = []int64{0, 1, -1, 1<<52 - 1, 1 << 52, -(1 << 52), 1<<52 + 1,
 var dateAlphabet = []int64{0, 1, -1, 1 << 31, -62135596800, 253402300799}
 var intervalAlphabet = []int64{0, 1, 1 << 31, 1<<32 - 1}
 
-func bigAlphabet() []*big.Int {
-	p63 := new(big.Int).Lsh(big.NewInt(1), 63)
-	p64 := new(big.Int).Lsh(big.NewInt(1), 64)
-	return []*big.Int{big.NewInt(0), big.NewInt(1), big.NewInt(-1), big.NewInt(127), big.NewInt(128), big.NewInt(255), big.NewInt(256), big.NewInt(-128), big.NewInt(-129),
-		new(big.Int).Sub(p63, big.NewInt(1)), p63, new(big.Int).Neg(p63), new(big.Int).Sub(new(big.Int).Neg(p63), big.NewInt(1)), p64, new(big.Int).Neg(p64)}
-}
+func bigAlphabet() []*big.Int { return BigValues() }
 
 func maskAlphabet(t reflect.Type) []int64 {
 	out := []int64{0}
